@@ -103,6 +103,20 @@ def replay_h_filemeta_capacity_rest(name_len, smax, kv_v):
     return _replay_fmd(SHAPE[0], SHAPE[1], name_len, 1, smax, 1, 1, kv_v, SHAPE[2], 1)
 
 
+def h_filemeta_capacity_kv(kv_k: int, kv_v: int) -> bool:
+    """
+    pre: 0 <= kv_k <= MAXLEN and 0 <= kv_v <= MAXLEN
+    post: __return__
+    """
+    # user key-value metadata of any size (every other string tiny): the sizing heuristic counts the key-value text,
+    # so nothing overruns and nothing is dropped however large the custom metadata is
+    return _serialise(_fmd(SHAPE[0], SHAPE[1], 1, 1, 1, 1, kv_k, kv_v, SHAPE[2], 1))
+
+
+def replay_h_filemeta_capacity_kv(kv_k, kv_v):
+    return _replay_fmd(SHAPE[0], SHAPE[1], 1, 1, 1, 1, kv_k, kv_v, SHAPE[2], 1)
+
+
 # --------------------------------------------------------------------------------- replay ---
 def _run_sub(code):
     """serialise in a subprocess on the ASan build: the expected failure mode is heap corruption"""
